@@ -144,6 +144,15 @@ GOLDNOEXT == [Bp("GOLDNOEXT", C1, << Sd("C", "GOV", "GoldStandardGovernment"), S
                                Sd("C", "LAB", "Market"), Sd("C", "GOOD", "Market") >>, {3})
           EXCEPT !.wellformed = FALSE]
 
-AllBlueprints == {SIMR, SIMEXR, JOIN2, JOIN2X, GOLD2, GOLDNOEXT, SIM, SIMEX, SIMCAP, SIMMARGIN, SIMMON, SIMDEP, PC, MULTI, FED, GIFT, GIFT2, IMPORT, NOEXT1, NOEXT2, NOSUP, TWOSUP}
+\* ---- two dividend-paying businesses (two goods) and capitalists in one country ---------------------------------
+TWOBUS == [Bp("TWOBUS", C1,
+           << [Sd("C", "GOV", "ConsolidatedGovernment") EXCEPT !.extra = << "DEM_FOOD" >>], Sd("C", "HH", "Household"),
+              Sd("C", "CAP", "Capitalists"),
+              [Sd("C", "BUS1", "FixedMarginBusiness") EXCEPT !.margin = TRUE],
+              [Sd("C", "BUS2", "FixedMarginBusiness") EXCEPT !.margin = TRUE, !.good = "FOOD"],
+              Sd("C", "TF", "TaxFlow"), Sd("C", "LAB", "Market"), Sd("C", "GOOD", "Market"), Sd("C", "FOOD", "Market") >>, {3, 4, 5})
+        EXCEPT !.freeq = {3, 5}, !.exo = << Exo(1, "DEM_GOOD"), Exo(1, "DEM_FOOD") >>]
+
+AllBlueprints == {TWOBUS, SIMR, SIMEXR, JOIN2, JOIN2X, GOLD2, GOLDNOEXT, SIM, SIMEX, SIMCAP, SIMMARGIN, SIMMON, SIMDEP, PC, MULTI, FED, GIFT, GIFT2, IMPORT, NOEXT1, NOEXT2, NOSUP, TWOSUP}
 QuickBlueprints == { [b EXCEPT !.free = b.freeq] : b \in AllBlueprints }
 =============================================================================
